@@ -2897,7 +2897,7 @@ class FuncParse(ValueFunc):
         except Exception:
             raise CklRuntimeError(
                 ValueString("ERROR"),
-                "Cannot parse expression " + args.getString("s"),
+                "Cannot parse expression " + args.getString("s").value,
                 pos,
             )
 
